@@ -145,4 +145,83 @@ theorem assign_spec {nVals : Nat} {h : Hist} {s : VState} {e : Event} (hv : Vali
     · rw [assign_B2 s e sp ps h1' hp h0]
       exact newBr_spec e hv bi
 
+/-! ### the state after `add`, seen from the state before -/
+
+/-- the vector computed for the new event before fork detection -/
+def mergedParents (hb : HBT) (nBr me : Nat) (e : Event) : HBV :=
+  e.parents.foldl (fun v p => collectFrom v (hb.get p) nBr) (HBV.zero.set me ⟨e.seq, e.seq⟩)
+
+structure AddView (h : Hist) (s : VState) (e : Event) (s' : VState) (me : Nat) : Prop where
+  nVals_eq : s'.nVals = s.nVals
+  size_eq : s'.size = h.length + 1
+  branchOf_eq : ∀ i, s'.branchOf i = if i = h.length then me else s.branchOf i
+  parents_eq : ∀ i, s'.parents i = if i = h.length then e.parents else s.parents i
+  lastSeq_eq : ∀ b, s'.lastSeq b = if b = me then e.seq else s.lastSeq b
+  me_lt : me < s'.nBr
+  nBr_cases : (s'.nBr = s.nBr ∧ me < s.nBr) ∨ (s'.nBr = s.nBr + 1 ∧ me = s.nBr)
+  creatorOf_old : ∀ b, b < s.nBr → s'.creatorOf b = s.creatorOf b
+  creatorOf_me : s'.creatorOf me = e.creator
+  on_branch : ∀ j, j < h.length → s.branchOf j = me →
+    s.lastSeq me + 1 = e.seq ∧ ∃ p, p ∈ e.parents ∧ Anc h p j
+  hb_old : ∀ a, a ≠ h.length → s'.hb.get a = s.hb.get a
+  hb_new : ∃ s1 : VState, s1.nBr = s'.nBr ∧ s1.nVals = s'.nVals ∧ s1.creatorOf = s'.creatorOf ∧
+    s'.hb.get h.length = s1.detectForks (mergedParents s.hb s'.nBr me e)
+
+theorem add_view {nVals : Nat} {h : Hist} {s : VState} {e : Event} (hv : Valid nVals h)
+    (hn : ValidNext nVals h e) (bi : BranchInv h s) (hnv : s.nVals = nVals) :
+    AddView h s e (s.add e) (s.assignBranch e).2 := by
+  have A := assign_spec hv hn bi hnv
+  have hsz := bi.size_eq
+  revert A
+  unfold VState.add
+  rcases s.assignBranch e with ⟨s1, me⟩
+  intro A
+  simp only at A ⊢
+  exact {
+    nVals_eq := A.nVals_eq
+    size_eq := by rw [hsz]
+    branchOf_eq := by intro i; rw [A.branchOf_eq, hsz]
+    parents_eq := by intro i; rw [A.parents_eq, hsz]
+    lastSeq_eq := A.lastSeq_eq
+    me_lt := A.me_lt
+    nBr_cases := A.nBr_cases
+    creatorOf_old := A.creatorOf_old
+    creatorOf_me := A.creatorOf_me
+    on_branch := A.on_branch
+    hb_old := by
+      intro a ha
+      rw [← hsz] at ha
+      simp [HBT.setRow, ha, A.hb_eq]
+    hb_new := ⟨s1, rfl, rfl, rfl, by simp [HBT.setRow, hsz, mergedParents, A.hb_eq]⟩ }
+
+theorem idx_cases {h : Hist} {e : Event} {i : Nat} (hi : i < (h ++ [e]).length) :
+    i < h.length ∨ i = h.length := by
+  rw [length_snoc] at hi; omega
+
+/-- old events of the branch of the new event: smaller seq, and ancestors of the new event -/
+theorem AddView.old_on_me {h : Hist} {s s' : VState} {e : Event} {me : Nat} (V : AddView h s e s' me)
+    (bi : BranchInv h s) {j : Nat} (hj : j < h.length) (hb : s.branchOf j = me) :
+    (h.ev j).seq < e.seq ∧ Anc (h ++ [e]) h.length j := by
+  obtain ⟨hl, p, hp, hpj⟩ := V.on_branch j hj hb
+  have := bi.last_ub j hj
+  rw [hb] at this
+  refine ⟨by omega, Anc.step (by rw [length_snoc]; omega) ?_ (hpj.snoc e)⟩
+  rw [ev_snoc_eq]; exact hp
+
+theorem AddView.branchOf_old {h : Hist} {s s' : VState} {e : Event} {me : Nat} (V : AddView h s e s' me)
+    {i : Nat} (hi : i < h.length) : s'.branchOf i = s.branchOf i := by
+  rw [V.branchOf_eq, if_neg (Nat.ne_of_lt hi)]
+
+theorem AddView.branchOf_new {h : Hist} {s s' : VState} {e : Event} {me : Nat} (V : AddView h s e s' me) :
+    s'.branchOf h.length = me := by
+  rw [V.branchOf_eq, if_pos rfl]
+
+theorem AddView.nBr_le {h : Hist} {s s' : VState} {e : Event} {me : Nat} (V : AddView h s e s' me) :
+    s.nBr ≤ s'.nBr := by
+  rcases V.nBr_cases with ⟨h1, _⟩ | ⟨h1, _⟩ <;> omega
+
+theorem AddView.lt_of_ne_me {h : Hist} {s s' : VState} {e : Event} {me : Nat} (V : AddView h s e s' me)
+    {b : Nat} (hb : b < s'.nBr) (hne : b ≠ me) : b < s.nBr := by
+  rcases V.nBr_cases with ⟨h1, _⟩ | ⟨h1, h2⟩ <;> omega
+
 end VecProofs
